@@ -433,6 +433,10 @@ func (fb *FullBlockImage) Resize(w int, h int) {
 
 		top := img.At(x, y)
 		bot := img.At(x, y+1)
+		if y+1 >= img.Bounds().Max.Y {
+			// odd height: the last row of cells covers one pixel only
+			bot = top
+		}
 		r, g, b, a := averageColor(top, bot)
 		switch {
 		// TODO: What is the right value for alpha that we should set
